@@ -465,6 +465,7 @@ func processLevel(run *ev.Run, dir string) {
 	run.Floor("errno_points", 60)
 	const inj = "pwrite64,fsync,fdatasync,unlink,unlinkat,ftruncate"
 	w := crash.NewWorld(run.Rand("world", 0))
+	w.ChildTimeout = 12 * time.Second // a script takes milliseconds; a child still running then is stuck
 	scripts := w.Scripts()
 	if !run.Thorough() {
 		scripts = scripts[1:4] // growth, refresh, growth after a refused update
@@ -530,6 +531,12 @@ func processLevel(run *ev.Run, dir string) {
 		if !a.Ready && strings.Contains(string(out), "witness.New:") {
 			// the fault hit table creation at start-up: refusing to start on a failing disk is not an update outcome
 			run.Count("errno_hit_startup")
+			return
+		}
+		if err != nil && err.Error() == "watchdog" && a.Ready {
+			// the child answered some requests and then stopped answering: on its single-connection store the
+			// operation after the failed one never completed
+			run.Violate("process_wedged_after_io_error;"+p.sc.Name, fmt.Sprintf("after %s at storage syscall %d the witness process stopped answering (its next storage operation never completed); answered so far: %d ack, %d refused", p.errno, p.n, len(a.Order), len(a.Nak)), unit, detail)
 			return
 		}
 		if err != nil || !a.Done {
